@@ -110,6 +110,29 @@ pub fn check_decode(c: &DecodeCase) -> CaseResult {
     let want_eof: Vec<Item> = want_eof.into_iter().collect();
     vensure!(eof_items == want_eof, "C15/decode-eof-mismatch",
         "end-of-stream items differ for input {:?} split {}: decoder {:?}, reference {:?}", c.input, split, eof_items, want_eof);
+    // the other way to drain a buffer: decode_eof alone (a reader that got everything in one piece
+    // and knows the stream has ended); it yields every terminated line and then the tail as well
+    let got2 = catch_unwind(AssertUnwindSafe(|| {
+        let mut codec = LinesCodec::default();
+        let mut buf = BytesMut::from(&c.input[..]);
+        let mut out = vec![];
+        for _ in 0..c.input.len() + 4 {
+            match conv(codec.decode_eof(&mut buf)) {
+                Some(it) => out.push(it),
+                None => return Ok(out),
+            }
+        }
+        Err("decode_eof does not terminate")
+    }));
+    match got2 {
+        Err(p) => vfail!("C15/decode-panic", "decode_eof panicked on {:?}: {}", c.input, vcore::panic_message(&*p)),
+        Ok(Err(e)) => vfail!("C15/decode-nonterminating", "{} on {:?}", e, c.input),
+        Ok(Ok(all)) => {
+            let want_all: Vec<Item> = want_items.iter().cloned().chain(want_eof.iter().cloned()).collect();
+            vensure!(all == want_all, "C15/decode-eof-mismatch",
+                "draining {:?} with decode_eof alone yields {:?}, the reference lines are {:?}", c.input, all, want_all);
+        }
+    }
     let mut obs = Obs::new();
     let has_nl = c.input.contains(&b'\n');
     let has_cr = c.input.contains(&b'\r');
@@ -247,7 +270,7 @@ pub fn decode_case_from_bytes(data: &[u8]) -> DecodeCase {
     DecodeCase { input, split }
 }
 
-const RULE_DECODE: &str = "byte string + split point fed to LinesCodec::decode*/decode_eof*, compared item by item with a reference splitter; non-trivial = input contains a LF and a CR or a non-ASCII byte; distinct by (input, split)";
+const RULE_DECODE: &str = "byte string + split point fed to LinesCodec::decode*/decode_eof* (and the whole input drained with decode_eof alone), compared item by item with a reference splitter; non-trivial = input contains a LF and a CR or a non-ASCII byte; distinct by (input, split)";
 const RULE_ENCODE: &str = "sequence of strings encoded into one buffer, then decoded; encode must append s+LF; round trip asserted when no string contains LF or ends in CR; non-trivial = conforming, >=2 lines, some CR or non-ASCII";
 
 pub fn run(ctx: &Ctx) {
